@@ -49,7 +49,7 @@ func (w *World) spawnRequest(c *Container, cmd string) *Request {
 		"CNI_COMMAND":     cmd,
 		"CNI_CONTAINERID": c.ID,
 		"CNI_NETNS":       fmt.Sprintf("/proc/%d/ns/net", 1000+c.Pod.Idx*10+c.Seq),
-		"CNI_IFNAME":      "eth0",
+		"CNI_IFNAME":      kubeIf(c.Pod),
 		"CNI_PATH":        kubeletCNIPath,
 		"CNI_ARGS":        fmt.Sprintf("IgnoreUnknown=1;K8S_POD_NAMESPACE=%s;K8S_POD_NAME=%s;K8S_POD_INFRA_CONTAINER_ID=%s", c.Pod.NS, c.Pod.Name, c.ID),
 	}
@@ -341,6 +341,9 @@ func (w *World) requestEnded(r *Request, killed bool) {
 		}
 	case "DEL":
 		if ok {
+			if c.Phase != "down" {
+				c.DelOKProc = w.proc
+			}
 			c.Phase = "down"
 			c.DelOK = true
 			if !w.armed("C12") {
@@ -509,3 +512,10 @@ func (w *World) onReady() {
 }
 
 var _ = core.CodeOK
+
+func kubeIf(p *PodDef) string {
+	if p.KubeIf == "" {
+		return "eth0"
+	}
+	return p.KubeIf
+}
